@@ -264,6 +264,58 @@ Section Bind.
         | e => SrErr e
         end
     end.
+  (* ---------- the public Core API (core.go:106-440): which verification
+     function guards which method.  [lbo] is the light block that
+     Core.lightBlock obtains from the light client for the height in
+     question, None when the light client cannot verify that height (the
+     method then fails before the provider's data is looked at or returned). *)
+  Inductive api_call :=
+  | ApiGetBlock (b : block)                                  (* 107-123 *)
+  | ApiGetTransactions (txs : list bytes)                    (* 318-334 *)
+  | ApiGetTransactionsWithProofs (txs : list bytes) (returned : list proof)   (* 337-344 *)
+  | ApiGetParameters (pm : parameters) (state_params : option bytes)          (* 259-275 *)
+  | ApiGetValidators (height : Z) (lb_prev : option light_block) (vs : validators)   (* 182-212 *)
+  | ApiSubmitTxWithProof (p : option proof) (tx : bytes).    (* 425-440; lbo: light block at proof.Height *)
+
+  Definition core_get_block (lbo : option light_block) (b : block) : bverdict :=
+    match lbo with None => BOther | Some lb => verify_block b lb end.
+  Definition core_get_transactions (lbo : option light_block) (txs : list bytes) : bverdict :=
+    match lbo with None => BOther | Some lb => verify_transactions txs lb end.
+  (* the proofs are computed locally from the verified transactions; the
+     implementation's output [returned] is validated against the model's *)
+  Definition core_get_transactions_with_proofs (lbo : option light_block) (txs : list bytes)
+             (returned : list proof) : bverdict :=
+    match core_get_transactions lbo txs with
+    | BOk => if list_eqb proof_eqb returned (snd (proofs_for_txs H txs)) then BOk else BOther
+    | e => e
+    end.
+  Definition core_get_parameters (lbo : option light_block) (pm : parameters) (sp : option bytes) : bverdict :=
+    match lbo with None => BOther | Some lb => verify_parameters pm sp lb end.
+  (* GetValidators: a height the light client can verify is answered from the
+     verified light block itself (the provider is not consulted: BOk whatever
+     [vs] is, and [vs] is not what is returned); otherwise the provider's set
+     for [height] is checked against NextValidatorsHash of the verified light
+     block at height-1. *)
+  Definition core_get_validators (lbo : option light_block) (height : Z) (lb_prev : option light_block)
+             (vs : validators) : bverdict :=
+    match lbo with
+    | Some _ => BOk
+    | None =>
+        if (height <? 2)%Z then BOther
+        else match lb_prev with None => BOther | Some p => verify_next_validators vs p end
+    end.
+  Definition core_submit_tx_with_proof (lbo : option light_block) (p : option proof) (tx : bytes) : bverdict :=
+    match lbo with None => BOther | Some lb => verify_transaction_proof p tx lb end.
+
+  Definition core_api (lbo : option light_block) (c : api_call) : bverdict :=
+    match c with
+    | ApiGetBlock b => core_get_block lbo b
+    | ApiGetTransactions txs => core_get_transactions lbo txs
+    | ApiGetTransactionsWithProofs txs ret => core_get_transactions_with_proofs lbo txs ret
+    | ApiGetParameters pm sp => core_get_parameters lbo pm sp
+    | ApiGetValidators h p vs => core_get_validators lbo h p vs
+    | ApiSubmitTxWithProof p tx => core_submit_tx_with_proof lbo p tx
+    end.
 End Bind.
 
 Arguments mkTxResult : clear implicits.
@@ -293,7 +345,8 @@ Inductive bquery :=
 | QCoreResults (last_trusted : Z) (rs : results) (next_results_hash : option (option bytes))
 | QCoreTxResults (last_trusted : Z) (txs : list bytes) (rs : results)
                  (next_results_hash : option (option bytes)) (conv_ok : bool)
-| QCoreStateRoot (lb_next : option light_block) (txs : list bytes) (m : meta_tx).
+| QCoreStateRoot (lb_next : option light_block) (txs : list bytes) (m : meta_tx)
+| QApi (have_lb : bool) (c : api_call).
 
 Definition bcase := (list (bytes * bytes) * light_block * bquery)%type.
 Definition run_bcase (c : bcase) : sr_result :=
@@ -311,4 +364,5 @@ Definition run_bcase (c : bcase) : sr_result :=
   | QCoreTxResults lt txs rs nrh ok =>
       SrErr (core_get_transactions_with_results Hh (verify_transactions Hh txs lb) lt rs nrh ok lb)
   | QCoreStateRoot n txs m => fetch_state_root Hh (fun _ => m) n lb txs
+  | QApi have c => SrErr (core_api Hh (if have then Some lb else None) c)
   end.
